@@ -129,6 +129,20 @@ Example detector_examples :
   wv_check (cube_bound example_heap) example_heap [] [] 0 = WDone.
 Proof. vm_compute. repeat split. Qed.
 
+(* a closure over a variable that is still unassigned (cell.v == nil: the model's
+   `Some None` cell content) next to one that reaches itself: cell.Freeze's nil
+   test makes the cell a leaf; printing, comparing and hashing never look inside a
+   function *)
+Definition unassigned_cell_heap : heap :=
+  {| objs := [OList [1; 2]; OFunc [0] [0; 1]; OTuple [1; 0]]; cellv := [None; Some 1] |}.
+Example unassigned_cell_premises_hold :
+  wf_heap unassigned_cell_heap = true /\
+  freeze code_guards (sq_bound unassigned_cell_heap) unassigned_cell_heap [] 2 = Done [0; 1] /\
+  write_value code_guards (sq_bound unassigned_cell_heap) unassigned_cell_heap [] 2 = Done tt /\
+  compare code_guards 11 unassigned_cell_heap 10 EQL 1 1 = Done true /\
+  hash 3 unassigned_cell_heap 1 = Done tt /\ hash 3 unassigned_cell_heap 2 = Fail.
+Proof. vm_compute. repeat split. Qed.
+
 Example arity_premises_hold :
   exists r, In r arity_table /\ r_func r = "set_difference"%string /\ r_min r = 1 /\
     accepted r 1 (fun i => Nat.eqb i 0) /\ panics r 1 (fun i => Nat.eqb i 0) = false.
